@@ -274,6 +274,7 @@ def run(ctx):
     _run_rules(ctx)
     from .. import boundaries
     boundaries.check(ctx, 'C02.RB', 'C02')
+    boundaries.check_layering(ctx, 'C02.RL')
     boundaries.check_inits(ctx, 'C02.RI', 'C02')
     boundaries.check_writes(ctx, 'C02.RW', 'C02')
     boundaries.check_guards(ctx, 'C02.RG', 'C02')
